@@ -47,6 +47,7 @@ typedef struct { int key; int has_dflt; long long dflt; } QVariant;
 typedef struct { int id; } QVariantHash;
 #define GROUP_ID 4242
 static inline QString op_plus__QString_QString(QString a, QString b) { QString r = b; r.tag = (a.id == GROUP_ID) ? 1 : 0; return r; }           /* group + "/key": the key literal, under the group */
+static inline QVariant QVariant_ctor(void) { QVariant v; v.key = 0; v.has_dflt = 0; v.dflt = 0; return v; }      /* invalid QVariant: value(key, QVariant()) == value(key) */
 static inline QVariant QVariant_ctor__BOOL(BOOL b) { QVariant v; v.key = 0; v.has_dflt = 1; v.dflt = b; return v; }
 static inline QVariant QVariant_ctor__int(int i) { QVariant v; v.key = 0; v.has_dflt = 1; v.dflt = i; return v; }
 static inline QVariant QSettings_value__QString(QSettings *s, QString key) { QVariant v; v.key = key.tag == 1 ? key.id : 0; v.has_dflt = 0; v.dflt = 0; return v; }
